@@ -96,6 +96,13 @@ bool vf_case_failed(void);
 bool vf_lock_probe(void *m);
 void vf_abort_case(void);   /* record CRASH for the current case and exit(42): the driver restarts after it */
 
+/* ---- errno on entry, per-operation CPU budget ------------------------------ */
+extern int vf_errno_entry;          /* 1: every vf_log() leaves a (case,op)-derived errno value for the operation that follows */
+extern int vf_op_budget_ms;         /* >0: every vf_log() arms the CPU watchdog with this budget ("hang:operation") */
+int vf_entry_errno_for(uint64_t h);   /* a value chosen by h (e.g. a hash of the input and the call site) */
+int vf_entry_errno(void);           /* the value for the current (case, op); counts the non-zero ones */
+extern long vf_entry_errno_nonzero;
+
 /* ---- CPU watchdog (ITIMER_VIRTUAL) --------------------------------------- */
 void vf_cpu_arm(const char *what, int millis);
 void vf_cpu_arm_prop(const char *prop, const char *what, int millis);  /* hang attributed to `prop` */
